@@ -47,6 +47,9 @@ def generate(st):
             seen = True
         elif seen:
             p['default'] = 0
+    # the trailing parameter(s) of f may be keyword-only (def f(x, *, y=7)): inputs are handed over by name anyway
+    for p in params[max(1, n_params - sw.choice([0, 0, 0, 0, 1, 2])):]:
+        p['kwonly'] = True
     two_keys = sw.random() < 0.3
     on = ['k1', 'k2'] if two_keys else ['k1']
     if two_keys and sw.random() < 0.5:
@@ -74,6 +77,9 @@ def generate(st):
         'bigkeys': sw.random() < 0.012,
         'none_values': sw.random() < 0.2,       # a table may hold None as a genuine value
     }
+    if cfg['defaults'] is not None and sw.random() < 0.3:
+        # a stated default for the expiry input: keys the expiry table lacks expire then (long ago / far in the future)
+        cfg['defaults']['expiry'] = enc(datetime.datetime.fromisoformat(cfg['origin']) + datetime.timedelta(days=sw.choice([-1000, -1000, 5000])))
     # renames = {parameter: column}: which column of a wider table feeds the parameter (documented option)
     cfg['renames'] = {sw.choice(names): 'src'} if sw.random() < 0.15 else None
     cfg['reenter'] = sw.random() < 0.25        # f itself uses lifted functions / join while it is being evaluated
@@ -346,7 +352,9 @@ HOOK = {'fn': None, 'depth': 0, 'seen': 0, 'at': 1}      # what f does, while it
 def _make_f(params, ledger, dict_output=False, arm=None):
     """a real def with the drawn signature; records every call; the value carries the call number so a kept
     value can be told from a recomputed one"""
-    sig = ', '.join(p['name'] if 'default' not in p else '%s=%r' % (p['name'], p['default']) for p in params)
+    part = lambda p: p['name'] if 'default' not in p else '%s=%r' % (p['name'], p['default'])
+    pos_, kwo_ = [part(p) for p in params if not p.get('kwonly')], [part(p) for p in params if p.get('kwonly')]
+    sig = ', '.join(pos_ + (['*'] + kwo_ if kwo_ else []))
     body = ', '.join("'%s': %s" % (p['name'], p['name']) for p in params)
     src = ("def f(%s):\n"
            "    args = {%s}\n"
@@ -392,6 +400,8 @@ def execute(trace, ctx=None):
     formula_bad = []
 
     def real_default(d):
+        if isinstance(d, dict) and 'dt' in d:
+            return dec(d)
         if not (isinstance(d, dict) and 'formula' in d):
             return d
 
@@ -425,6 +435,7 @@ def execute(trace, ctx=None):
         jdefaults = dict(cfg['defaults'])
     else:
         jdefaults = {q['name']: q['default'] for q in params if 'default' in q}
+    dflt_e = dec(cfg['defaults']['expiry']) if (cfg.get('defaults') or {}).get('expiry') is not None else None
     prev = None            # model of the previous output: {keytuple(on order): value}
     prev_table = None      # the real previous output
     state = {'step': 0}
@@ -609,9 +620,14 @@ def execute(trace, ctx=None):
                             res.stat('expiry-withheld(known finding not provoked)')
                             continue
                         seen.setdefault(kk, v)
+                    if seen and dflt_e is not None and dflt_e <= SimClock.now and not allow and not cfg.get('if_none') and any(kt not in seen and kt not in supplied for kt in row_keys):
+                        seen = {}       # the default expiry (past) would fall on a key without a previous value: the recorded finding, not provoked
+                        res.stat('expiry-withheld(known finding not provoked)')
                     if seen:
                         call['expiry'] = table(on, [list(kk) for kk in seen], e['col'], list(seen.values()))
                         exp_map = seen
+                        if dflt_e is not None and any(kt not in seen for kt in row_keys):
+                            res.probe('default-expiry-applies-to-keys-the-expiry-table-lacks')
             # when every table input is outer-joined, keys found only in data/expiry would extend the key set; the
             # statement does not say whether they should, so such calls are not made
             if mrows is not None and not any(v[0] == 'table' and nm not in jdefaults for nm, v in minputs.items()):
@@ -654,7 +670,7 @@ def execute(trace, ctx=None):
                             if args == failing_args or kt not in byk or col not in byk[kt]:
                                 continue
                             gotv = byk[kt][col]
-                            e_ = exp_map.get(kt, exp_scalar)
+                            e_ = exp_map.get(kt, dflt_e if (exp_map and dflt_e is not None) else exp_scalar)
                             if e_ is not None and e_ < today and kt in supplied and gotv != supplied[kt]:
                                 raise Violation('frozen-row-changed', 'key %s: f failed on another row and the failure was swallowed; this row had a previous value %r with expiry %s < today and now holds %r'
                                                 % (kt, supplied[kt], e_, gotv), k)
@@ -761,7 +777,7 @@ def execute(trace, ctx=None):
                 kt = tuple(kd[c] for c in on)
                 got = byrow[kt][col]
                 args = {q['name']: vals.get(q['name'], q.get('default')) for q in params}
-                e = exp_map.get(kt, exp_scalar)
+                e = exp_map.get(kt, dflt_e if (exp_map and dflt_e is not None) else exp_scalar)
                 if e is None:
                     ec = 'none'
                 elif e < today:
